@@ -221,6 +221,8 @@ class SF:
     def _cmp(s, o, f):
         if o is None:
             raise Unsupported("comparison of a float with None")
+        if _isvec(o):
+            return NotImplemented
         o = SF.lift(o)
         return SB(z3.simplify(z3.And(z3.Not(s.nan), z3.Not(o.nan), f(s.r, o.r))))
 
@@ -258,14 +260,14 @@ class SF:
         return SF(z3.If(s.r < 0, -s.r, s.r), s.nan)
 
     # -- arithmetic ----------------------------------------------------------------------
-    def __add__(s, o): return _arith("add", s, o)
-    def __radd__(s, o): return _arith("add", o, s)
-    def __sub__(s, o): return _arith("sub", s, o)
-    def __rsub__(s, o): return _arith("sub", o, s)
-    def __mul__(s, o): return _arith("mul", s, o)
-    def __rmul__(s, o): return _arith("mul", o, s)
-    def __truediv__(s, o): return _arith("div", s, o)
-    def __rtruediv__(s, o): return _arith("div", o, s)
+    def __add__(s, o): return NotImplemented if _isvec(o) else _arith("add", s, o)
+    def __radd__(s, o): return NotImplemented if _isvec(o) else _arith("add", o, s)
+    def __sub__(s, o): return NotImplemented if _isvec(o) else _arith("sub", s, o)
+    def __rsub__(s, o): return NotImplemented if _isvec(o) else _arith("sub", o, s)
+    def __mul__(s, o): return NotImplemented if _isvec(o) else _arith("mul", s, o)
+    def __rmul__(s, o): return NotImplemented if _isvec(o) else _arith("mul", o, s)
+    def __truediv__(s, o): return NotImplemented if _isvec(o) else _arith("div", s, o)
+    def __rtruediv__(s, o): return NotImplemented if _isvec(o) else _arith("div", o, s)
 
     def __pow__(s, p):
         if isinstance(p, (int, float)) and float(p) == 2.0:
@@ -282,6 +284,10 @@ class SF:
     def __array__(s, *a, **k): raise Unsupported("numpy conversion of a symbolic float")
     def __bool__(s): return bool(SB(z3.Or(s.nan, s.r != 0)))
     def __repr__(s): return f"SF({s.r}, nan={s.nan})"
+
+
+def _isvec(o):
+    return getattr(o, "_vcx_asarray", False)
 
 
 def _isinfc(r):
@@ -347,6 +353,12 @@ def _arith_order(c, op, a, b):
     res = SF(r, nan, minf=True)
     ok = z3.Not(nan)
     ax = [z3.And(NINF <= r, r <= PINF)]
+    if c.qscopes:
+        # inside a quantifier body only the range fact is kept (dropping theorems is sound on both the hypothesis and
+        # the goal side, and keeps the quantified formulas small); element-wise facts are available at witnesses
+        c.axiom(key, ax[0])
+        _mono_axioms(c, op)
+        return res
     if op in ("add", "sub"):
         bb = b if op == "add" else SF(z3.If(b.r == PINF, NINF, z3.If(b.r == NINF, PINF, -b.r)), b.nan)
         ax += [
